@@ -816,12 +816,13 @@ func (r *runner) writeV1() (string, error) {
 }
 
 var errFieldRe = regexp.MustCompile(`field ([A-Za-z0-9_.\[\]]+)`)
+var indexRe = regexp.MustCompile(`\[[^\]]*\]`)
 
 // errClass maps a validator message to (class, field) — stable tokens only.
 func errClass(msg string) (string, string) {
 	field := "-"
-	if m := errFieldRe.FindStringSubmatch(msg); m != nil {
-		field = m[1]
+	if m := errFieldRe.FindAllStringSubmatch(msg, -1); len(m) > 0 {
+		field = indexRe.ReplaceAllString(m[len(m)-1][1], "") // innermost field, without list indices
 	}
 	cls := "other"
 	switch {
@@ -919,6 +920,7 @@ func (r *runner) Do(op []string) (string, bool) {
 		cmd.Stderr = &stderr
 		cmd.Stdout = nil
 		cmd.Dir = r.dir
+		cmd.Env = append(os.Environ(), "GOMAXPROCS=2")
 		rc := 0
 		if err := cmd.Run(); err != nil {
 			if ee, ok := err.(*exec.ExitError); ok {
@@ -958,6 +960,8 @@ func (r *runner) Do(op []string) (string, bool) {
 		}
 		if rc != 0 {
 			rc = 1 // exit statuses other than 0 are not distinguished (panic = 2, os.Exit(1))
+			kind = "aborted"
+			r.out = nil // whatever was written before the converter died is not a v2 file
 		}
 		return fmt.Sprintf("exit=%d kind=%s", rc, kind), true
 	case "load":
